@@ -72,6 +72,32 @@ def build_and_run(spec, sub, faults=None, same_object_runs=1, api='results'):
                 raise e
         return step
 
+    def counting_row_function(name):
+        """a plain row function (names starting with 'r'): it cannot see resource boundaries, faults are addressed by
+        the global row index; it may fail with StopIteration (e.g. next() on an exhausted lookup iterator), which no
+        generator frame of the harness turns into RuntimeError"""
+        counters['steps'][name] = 0
+        stf = faults.get('step')
+        sizes = [len(t['rows']) for t in spec['tables']]
+        target = None
+        if stf and stf['at'] == name and sum(sizes):
+            r_ = min(stf['res'], len(sizes) - 1)
+            row = stf['row'] if isinstance(stf['row'], int) else max(0, sizes[r_] - 1)
+            target = min(sum(sizes[:r_]) + min(row, max(0, sizes[r_] - 1)), sum(sizes) - 1)
+        state = {'n': 0}
+
+        def f(row):
+            idx = state['n']
+            state['n'] += 1
+            if target is not None and idx == target:
+                sub.fault('step-raise')
+                sub.log('fault', 'step-raise', name, 'global-row', idx, stf.get('exc', 'Boom'))
+                e = StopIteration('row function %s row %d' % (name, idx)) if stf.get('exc') == 'StopIteration' else Boom('row function %s row %d' % (name, idx))
+                e._dfsim_marker = 'step-raise'
+                raise e
+            counters['steps'][name] += 1
+        return f
+
     def make_flow(reiterable=False):
         links = []
         for ti, table in enumerate(spec['tables']):
@@ -80,6 +106,8 @@ def build_and_run(spec, sub, faults=None, same_object_runs=1, api='results'):
         for ln in spec['links']:
             if ln.startswith('cp:'):
                 links.append(checkpoint(ln[3:]))
+            elif ln.startswith('r'):
+                links.append(counting_row_function(ln))
             else:
                 links.append(counting_step(ln))
         return Flow(*links)
